@@ -1,5 +1,6 @@
 import Driver.Util
 import StoneVerif.Model.Lex
+import Driver.FeRules
 /-! Protocol handlers of the `fe.*` suites. -/
 open Lean
 namespace Driver.Fe
@@ -73,6 +74,9 @@ end FeLex
 def handle (op : String) (j : Json) : Except String Json := do
   match op with
   | "fe.lex" => handleLex j
-  | _ => throw s!"unknown op {op}"
+  | _ =>
+    -- fe.params / fe.names (C01 / C03 component models): Driver/FeRules.lean
+    if op.startsWith "fe.params" || op.startsWith "fe.names" then Driver.FeRules.handle op j
+    else throw s!"unknown op {op}"
 
 end Driver.Fe
